@@ -9,6 +9,10 @@ import CattrsModel.FieldConv.Driver
 import CattrsModel.GenHook.Driver
 import CattrsModel.Generics.Driver
 import CattrsModel.Heap.Driver
+import CattrsModel.Paths.Driver
+import CattrsModel.GenInterp.Driver
+import CattrsModel.Subclasses.Driver
+import CattrsModel.Overrides.Driver
 open CattrsModel
 
 structure DState where
@@ -26,6 +30,8 @@ def stateless (op : String) (args : List Sexp) : Option Sexp :=
     |>.orElse (fun _ => GenHook.genHookHandle op args)
     |>.orElse (fun _ => Generics.genericsHandle op args)
     |>.orElse (fun _ => Heap.heapHandle op args)
+    |>.orElse (fun _ => Subclasses.subclassesHandle op args)
+    |>.orElse (fun _ => Overrides.overridesHandle op args)
 
 def step (st : DState) (line : String) : DState × String :=
   match Sexp.parseLine line with
@@ -34,7 +40,8 @@ def step (st : DState) (line : String) : DState × String :=
     | some w => ({ st with world := w }, "ok")
     | none => (st, "bad-world")
   | some (.atom op :: args) =>
-    match (convHandle st.world op args).orElse (fun _ => stateless op args) with
+    match (((convHandle st.world op args).orElse (fun _ => Paths.pathsHandle st.world op args)).orElse
+        (fun _ => GenInterp.genInterpHandle st.world op args)).orElse (fun _ => stateless op args) with
     | some r => (st, r.toString)
     | none => (st, "bad-op")
   | _ => (st, "bad-line")
